@@ -49,8 +49,10 @@ def total(line, stratum):
     """no panic, finite output, bounded work"""
     def judge(o):
         i = o['I'][0]
+        if i == 'DIED-SKIPPED':
+            return None       # not run: the engine had already died 12 times in this run (each of those is reported)
         if i.startswith('PANIC') or i == 'DIED':
-            return f'panic / abort: {i[:160]}'
+            return f'panic / abort / no answer within the stall limit: {i[:160]}'
         if engine_error(i):
             return 'engine error ' + i
         if not finite_out(i):
@@ -160,6 +162,32 @@ def generate(rng, tier):
         sc = rng.choice([1.0, 1e-3, 1e3])
         c = ' '.join(H(rng.uniform(-5, 5) * sc, rng.uniform(-5, 5) * sc) for _ in range(4))
         yield arclen_work(f'cubic.arclen_work {c} {H(sc * 10.0 ** rng.uniform(-12, -3))}', 'arclen-work')
+    # shapes of moderate extent far from the origin, fine absolute tolerances and widths (coordinates ~1e6 are inside the quantifier, and so are
+    # tolerances of 1e-3): retracted handles, coincident control points, collinear stretches
+    for _ in range(n):
+        o = (rng.choice([9e5, -7e5, 3e5]), rng.choice([9e5, 5e5, -8e5]))
+        ext = 10.0 ** rng.uniform(1, 4)
+        q = [(o[0] + rng.randint(-8, 8) * ext / 8, o[1] + rng.randint(-8, 8) * ext / 8) for _k in range(4)]
+        kind = rng.randrange(6)
+        if kind == 0:
+            body = f'C {H(*q[1])} {H(*q[2])} {H(*q[2])}'          # p2 == p3
+        elif kind == 1:
+            body = f'C {H(*q[0])} {H(*q[1])} {H(*q[2])}'          # p1 == p0
+        elif kind == 2:
+            body = f'C {H(*q[1])} {H(*q[1])} {H(*q[1])}'          # p0,B,B,B
+        elif kind == 3:
+            body = f'Q {H(*q[1])} {H(*q[1])} L {H(*q[2])} C {H(*q[2])} {H(*q[3])} {H(*q[3])}'
+        elif kind == 4:
+            body = f'C {H(*q[1])} {H(*q[2])} {H(*q[3])} Z'
+        else:
+            body = f'L {H(*q[1])} L {H(*q[1])} Q {H(*q[2])} {H(*q[0])} Z'
+        tolf = 10.0 ** rng.uniform(-3, 0)
+        wf = rng.choice([0.05, 2.0, 10.0])
+        dashed = rng.random() < 0.4
+        patf = [rng.choice([0.5, 3.0, 40.0]) for _k in range(rng.randint(1, 3))] if dashed else []
+        yield total(f'path.stroke {H(wf)} {rng.randint(0, 2)} {rng.randint(0, 2)} {H(4.0)} {H(rng.uniform(0, 2))} {len(patf)} {H(*patf)} {H(tolf)} M {H(*q[0])} {body}'.replace('  ', ' '), 'stroke-far-from-origin')
+        yield total(f'path.flatten {H(tolf)} M {H(*q[0])} {body}', 'flatten-far-from-origin')
+        yield total(f'path.simplify {H(tolf)} {rng.randint(0, 1)} M {H(*q[0])} {body}', 'simplify-far-from-origin')
     # smooth paths through a closed-loop cubic (start point = end point) with G1 neighbours: the optimised fitter's error is not monotone there
     for _ in range(n):
         p0 = (rng.uniform(-5, 5), rng.uniform(-5, 5))
@@ -189,6 +217,14 @@ def generate(rng, tier):
     for nn in range(0, maxlen + 1):
         for tup in itertools.product(ALPHA18, repeat=nn):
             yield total(f'svg.parse {hx("".join(tup))}', 'svg-exhaustive')
+    # every command letter directly followed by numbers / by every other command letter (also where the grammar does not allow it), after a valid start
+    letters = 'MmLlHhVvCcSsQqTtAaZz'
+    for c1 in letters:
+        for tail in ('1 1', '1', '', '1 1 1 1 1 1 1', '-1-1', ' ,1 1'):
+            yield total(f'svg.parse {hx("M0 0" + c1 + tail)}', 'svg-command-then-numbers')
+            yield total(f'svg.parse {hx("M0 0L2 2" + c1 + tail + "z" + tail)}', 'svg-command-then-numbers')
+        for c2 in letters:
+            yield total(f'svg.parse {hx("M0 0" + c1 + "1 1 " + c2 + "1 1 2 2")}', 'svg-command-pairs')
     from .c16 import arc_with_huge_number
     for _ in range(n * 4):
         txt = "".join(rng.choice(FULL) for _ in range(rng.randint(1, 64)))
